@@ -9,6 +9,8 @@ writer branch; every model-supplied value concatenated into an annotation is con
 R12.3 nothing dropped: the writer iterates over all parameters, species, reaction definitions and
 rule definitions and forwards all 8 reaction fields, the rule frequency and the stochastic flag;
 the model records the 8-field and 3-field tuples; numeric arguments become valued parameters.
+R12.5 formula language: the libsbml parser used at each writing site (kinetic law, rule), followed by the reader's
+L3 printer and bioscrape's parser, keeps the meaning of exp/log/abs/min/max/Heaviside and of the operator grammar.
 R12.4 the only non-deterministic call on the export path is the generated model id.
 The round trip through libsbml itself is not decided.
 """
@@ -310,6 +312,49 @@ def check_determinism(ctx):
            'the only non-deterministic call on the export path is the generated model id', '; '.join('%s calls %s at %s' % x for x in extra))
 
 
+def check_language(ctx):
+    """R12.5: formula strings (general rates, rule right-hand sides) go through a libsbml parser on the way out and through
+    formulaToL3String + bioscrape's own parser on the way back; the composition must keep bioscrape's meaning of every function
+    name and of the operator grammar."""
+    from . import c14
+    c14.check_formula_language(ctx, 'R12.5-formula-language', 'add_reaction', 'kinetic-law', 'roundtrip')
+    c14.check_formula_language(ctx, 'R12.5-formula-language', 'add_rule', 'rule', 'roundtrip')
+    # sibling agreement of the two writing sites: bioscrape accepts both spellings of a power (C02 R2.4), SBML only '^'; a string the
+    # parser cannot read must stop the export instead of leaving an element without math
+    for fname, site in (('add_reaction', 'kinetic-law'), ('add_rule', 'rule')):
+        f, (lang, desc, call) = c14.parser_at(ctx, fname)
+        arg = call.args[0] if call.args else None
+        defs = [n for n in ast.walk(f) if isinstance(n, ast.Assign) and arg is not None and any(src(t) == src(arg) for t in n.targets)]
+        texts = [src(arg).replace(' ', '')] + [src(d.value).replace(' ', '') for d in defs]
+        spelled = any(".replace('**','^')" in t for t in texts)
+        ctx.ob('R12.5-formula-language', '%s/power-spelling' % site, spelled, ctx.loc('sbmlutil', call),
+               "the string handed to the SBML parser has '**' rewritten to '^' (both spellings are valid bioscrape formulas)",
+               '' if spelled else 'parsed expression: %s' % texts[0])
+        # the parse result is tested for None on the way to setMath, and that path raises
+        res = None
+        par = getattr(call, '_parent', None)
+        if isinstance(par, ast.Assign) and len(par.targets) == 1 and isinstance(par.targets[0], ast.Name):
+            res = par.targets[0].id
+        guarded = False
+        if res is not None:
+            for n in ast.walk(f):
+                if isinstance(n, ast.If) and any(isinstance(x, ast.Raise) for x in n.body):
+                    t = util.canon_test(n.test)
+                    if '%sisNone' % res in t.replace(' ', '') or 'not%s' % res in t.replace(' ', ''):
+                        guarded = True
+        ctx.ob('R12.5-formula-language', '%s/unparsable-rejected' % site, guarded, ctx.loc('sbmlutil', call),
+               'a formula the SBML parser cannot read stops the export with an error (no element is written without math)',
+               '' if guarded else 'the parse result is not tested for None before it is set')
+    # the read-back table assumes the L3 printer on the reader side
+    for fname, what in (('import_sbml_reactions', 'kinetic law'), ('import_sbml_rules', 'rule')):
+        f = c14.get_func(ctx, fname)
+        pr = [src(c.func) for c in ast.walk(f) if isinstance(c, ast.Call) and src(c.func).split('.')[-1] in
+              ('formulaToL3String', 'formulaToString', 'formulaToL3StringWithSettings', 'getFormula')]
+        ctx.ob('R12.5-formula-language', 'reader/%s' % fname, pr and all(x.endswith('formulaToL3String') for x in pr), ctx.loc('sbmlutil', f),
+               'the %s math is turned back into text with the L3 printer (the counterpart of the L3 parser: ln stays ln, -(a^b) keeps its parentheses)' % what,
+               'printers used: %s' % pr)
+
+
 def check(ctx):
     for m in ('sbmlutil', 'types', 'types.pxd'):
         ctx.prog.mod(m)
@@ -318,6 +363,18 @@ def check(ctx):
     check_exhaustive(ctx, fw, far)
     check_forwarding(ctx)
     check_determinism(ctx)
+    check_language(ctx)
+    ctx.floor('R12.5-formula-language', 20)
+    # "the same species and initial values, the same parameter values": the reader takes every species' initial value and every
+    # parameter's value attribute, whatever else the document says about them (C13 R13.5) - re-emitted here
+    from ..core import SubCtx
+    sub = SubCtx(ctx)
+    c13.check_species(sub)
+    for rule, key, ok, where, what, detail in sub.got:
+        if rule == 'R13.5-initial-values' and key == 'import_sbml_species':
+            ctx.ob('R12.6-reader-values', key, ok, where, what, detail)
+    c13.check_parameter_values(ctx, 'R12.6-reader-values')
+    ctx.floor('R12.6-reader-values', 2)
     ctx.floor('R12.1-propensity-keys', 6)
     ctx.floor('R12.1-delay-keys', 8)
     ctx.floor('R12.2-exhaustive', 8)
